@@ -181,6 +181,33 @@ func producerOracle(m *MsgDesc, steps [][2]string) string {
 
 func suiteC18(c *Ctx) []Suite {
 	return []Suite{
+		{Name: "producers/fill-at-float-edges", Gen: func(c *Ctx) []Case {
+			// FillVariables on a message refuses a float exactly as the factory does: float64 values
+			// around the largest float32, the smallest subnormals, NaN and the infinities, for F4 and F8
+			var out []Case
+			for _, w := range []int{4, 8} {
+				for _, nested := range []bool{false, true} {
+					var toks []string
+					for _, b := range append(append(append([]uint64{}, f8Special...), f8Bad...), f64Edge...) {
+						toks = append(toks, fmt.Sprintf("f64:%d", b))
+					}
+					for _, b := range append(append([]uint64{}, f4Special...), f4Bad...) {
+						toks = append(toks, fmt.Sprintf("f32:%d", b))
+					}
+					for _, tok := range toks {
+						fl := &Node{Kind: "F", W: w, Slots: []Slot{{Bits: 0}, {IsVar: true, Name: "x"}}}
+						item := fl
+						if nested {
+							item = &Node{Kind: "L", Slots: []Slot{{Child: &Node{Kind: "L", Slots: []Slot{{Child: fl}}}}}}
+						}
+						m := genMsgDesc(c.R, item, 0)
+						out = append(out, Case{Op: "mprog " + m.newStep() + " | fill 1 " + hxs("x") + " " + tok + " | wait 0 | sess 3 00000009", Decisive: true, Nontrivial: true,
+							Tags: []string{fmt.Sprintf("float-edge:F%d", w)}})
+					}
+				}
+			}
+			return out
+		}},
 		{Name: "producers/fill-against-ascii-bounds", Gen: func(c *Ctx) []Case {
 			// FillVariables on a message refuses exactly the strings the variable's bounds exclude,
 			// at every depth and in the copies an ellipsis makes; a refused call changes nothing
@@ -191,16 +218,26 @@ func suiteC18(c *Ctx) []Suite {
 						av := &Node{Kind: "AV", Name: "id", Min: bd[0], Max: bd[1]}
 						item, key := av, "id"
 						var pre []string
+						onecall := ""
 						switch shape {
 						case 1:
 							item = &Node{Kind: "L", Slots: []Slot{{Child: &Node{Kind: "L", Slots: []Slot{{Child: av}, {Child: &Node{Kind: "U", W: 2, Slots: []Slot{{U: 7}}}}}}}}}
 						case 2:
 							item = &Node{Kind: "L", Slots: []Slot{{Child: av}, {IsVar: true, Name: "...[0]"}}}
 							pre, key = []string{"fill 1 " + hxs("...[0]") + " " + sintTok(0, 1)}, "id[1]"
+							if n%2 == 1 {
+								// the repeat count and the value for a name it creates, in one call
+								pre = nil
+								onecall = "fill 2 " + hxs("...[0]") + " " + sintTok(0, 1) + " " + hxs("id[1]") + " " + strTok(strings.Repeat("s", n))
+							}
 						}
 						m := genMsgDesc(c.R, item, 0)
 						steps := append([]string{m.newStep()}, pre...)
-						steps = append(steps, "fill 1 "+hxs(key)+" "+strTok(strings.Repeat("s", n)), "wait 0", "sess 9 00000001")
+						if onecall != "" {
+							steps = append(steps, onecall, "wait 0", "sess 9 00000001")
+						} else {
+							steps = append(steps, "fill 1 "+hxs(key)+" "+strTok(strings.Repeat("s", n)), "wait 0", "sess 9 00000001")
+						}
 						out = append(out, Case{Op: "mprog " + strings.Join(steps, " | "), Decisive: true, Nontrivial: true,
 							Tags: []string{fmt.Sprintf("bounds:%d..%d len:%d", bd[0], bd[1], n)}})
 					}
@@ -254,6 +291,9 @@ func suiteC18(c *Ctx) []Suite {
 							} else if v.node.Kind == "AV" {
 								// strings of every length against the variable's bounds
 								val = strTok(strings.Repeat("s", pick(c.R, 0, 1, 2, 3, 5, 9)))
+							} else if v.idx >= 0 && c.R.Intn(2) == 0 {
+								// a value of the slot's type, at and beyond the edges of its range
+								val = genFillVal(c.R, v.node, 0.15, nil).Tok
 							}
 						}
 						a := "1 " + hxs(key) + " " + val
@@ -592,9 +632,13 @@ func suiteC12(c *Ctx) []Suite {
 					m.F |= 1
 				}
 				steps := []string{m.newStep()}
-				for k := 0; k < 1+c.R.Intn(2); k++ {
-					if c.R.Intn(2) == 0 {
+				for k := 0; k < 1+c.R.Intn(3); k++ {
+					if x := c.R.Intn(5); x < 2 {
 						steps = append(steps, fmt.Sprintf("wait %d", c.R.Intn(2)))
+					} else if x == 2 {
+						// FillVariables is a constructor too: what the message carries (session id,
+						// system bytes, wait bit) is stored in the result as it was passed on
+						steps = append(steps, "fill 1 "+hxs("nokey")+" "+sintTok(0, 1))
 					} else {
 						sys := make([]byte, pick(c.R, 4, 4, 0, 3, 5))
 						c.R.Read(sys)
@@ -735,8 +779,36 @@ func suiteC16(c *Ctx) []Suite {
 					out = append(out, Case{Detail: fmt.Sprintf("ASCII variable (%s) filled with %d characters", shape, n), Oracle: res, Nontrivial: true, Tags: []string{"filled-at-limit"}})
 				}
 			}
+			// one element more than fits: whatever a factory hands out encodes iff it lists no variable
+			for _, f := range []struct {
+				name string
+				n    int
+				mk   func(args []interface{}) ast.ItemNode
+			}{
+				{"F8", 16777215/8 + 1, func(a []interface{}) ast.ItemNode { return ast.NewFloatNode(8, a...) }},
+				{"F4", 16777215/4 + 1, func(a []interface{}) ast.ItemNode { return ast.NewFloatNode(4, a...) }},
+				{"I8", 16777215/8 + 1, func(a []interface{}) ast.ItemNode { return ast.NewIntNode(8, a...) }},
+				{"U8", 16777215/8 + 1, func(a []interface{}) ast.ItemNode { return ast.NewUintNode(8, a...) }},
+			} {
+				res := ""
+				safely(func() {
+					args := make([]interface{}, f.n)
+					for i := range args {
+						args[i] = 1
+					}
+					var it ast.ItemNode
+					if pan, _ := safely(func() { it = f.mk(args) }); pan {
+						return
+					}
+					if nv, nb := len(it.Variables()), len(it.ToBytes()); (nv == 0) != (nb > 0) {
+						res = fmt.Sprintf("%s item of %d values: %d variables listed, encodes to %d bytes", f.name, f.n, nv, nb)
+					}
+				})
+				out = append(out, Case{Detail: fmt.Sprintf("%s item of %d values (one more than fits)", f.name, f.n), Oracle: res, Nontrivial: true, Tags: []string{"factory-above-limit"}})
+			}
 			return out
 		}},
+		{Name: "vars/after-ellipsis-fills", Gen: func(c *Ctx) []Case { return ellipsisCases(c, c.N(700), 4, 3) }},
 		{Name: "vars/items", Gen: func(c *Ctx) []Case {
 			var out []Case
 			// text that is no 7-bit ASCII never becomes an A item (its size in bytes and the characters
